@@ -84,7 +84,7 @@ impl CoordIndex {
             .unwrap_or(0)
             .max(index.direct_index.len().max(1) - 1);
 
-        let start_offset = index.direct_index.len() * index.direct_index.len();
+        let start_offset = (index.max_matrix_index + 1).pow(2);
         // NOTE promote custom locations to the index to use usize outside
         index.custom_locations.iter().enumerate().for_each(|(offset, location)| {
             debug_assert!(matches!(location, Location::Custom { .. }));
